@@ -689,7 +689,8 @@ def rule_sep_mark(ctx, rep, langs=ALL_LANGS):
         fn = interp_method(lang, 'format_decimal_and_value')
         bad = []
         try:
-            for i, ilz, d, dlz in ((b'3', 0, b'14', 0), (b'12', 0, b'5', 2), (b'', 1, b'7', 0), (b'1000', 0, b'25', 1)):
+            big = b'9' * 26
+            for i, ilz, d, dlz in ((b'3', 0, b'14', 0), (b'12', 0, b'5', 2), (b'', 1, b'7', 0), (b'1000', 0, b'25', 1), (big, 0, big, 0), (b'1' + b'0' * 320, 0, b'5', 0)):
                 got = ev.call_fn(fn, [ev.self_value, state(i, ilz), state(d, dlz)])
                 si, sd = '0' * ilz + i.decode(), '0' * dlz + d.decode()
                 want = (si + mark + sd, float(si + '.' + sd))
@@ -703,7 +704,10 @@ def rule_sep_mark(ctx, rep, langs=ALL_LANGS):
         bad = []
         try:
             cases = [(state(b'21'), ('21', 21.0)), (state(b'7', 2), ('007', 7.0)), (state(b'21', marker='st'), ('21st', 21.0)),
-                     (state(b'3', marker='º'), ('3º', 3.0)), (state(b'100', marker='ème'), ('100ème', 100.0))]
+                     (state(b'3', marker='º'), ('3º', 3.0)), (state(b'100', marker='ème'), ('100ème', 100.0)),
+                     # the builder has no upper bound (scale words stack): values beyond u64 / beyond f64 must still be formatted
+                     (state(b'2' + b'0' * 19), ('2' + '0' * 19, 2e19)), (state(b'9' * 26), ('9' * 26, float('9' * 26))),
+                     (state(b'1' + b'0' * 320), ('1' + '0' * 320, float('inf'))), (state(b'9' * 26, marker='th'), ('9' * 26 + 'th', float('9' * 26)))]
             if lang == 'es':
                 b = Builder(digits=b'12', marker=Marker('Fraction', 'avo'))
                 cases.append((b, ('1/12', 1.0 / 12.0)))
